@@ -4,8 +4,8 @@ NOTES = ("One technique decides every claimed property: Kani (CBMC+SAT) executin
          "still reproduces natively); exit 1 = a counterexample reproduced natively against the real build; exit 2 = not decided "
          "(timeout, OOM, staging failure, non-reproducing counterexample) - never reported as a pass or as a violation.")
 
-TRUST = ("Trusted: Kani 0.68 MIR->goto translation, CBMC 6.11 + CaDiCaL, the staging substitutions S1-S5 (hash containers -> "
-         "/verif/models/verif_collections, memchr -> linear scan, verbatim text extraction of synchronous pieces of async fns) and the "
+TRUST = ("Trusted: Kani 0.68 MIR->goto translation, CBMC 6.11 + CaDiCaL, the staging substitutions S1-S11 (hash containers -> "
+         "/verif/models/verif_collections with 4, 2 or 1 inline slots, memchr -> linear scan, verbatim text extraction of synchronous pieces of async fns and of single match arms) and the "
          "stubs listed in the evidence (logging, fmt::format, cpuid, parking_lot slow paths). ")
 
 CLAIMED = {
@@ -32,24 +32,16 @@ CLAIMED = {
              "vacuously today and become meaningful when that constant is corrected. Natively the same questions go to the real handler over a duplex stream.",
     ),
     "C06": dict(
-        text="Bounded: two replicas, one update each (SET/DEL/HSET/HDEL, all ordered pairs, three pre-states), symbolic clocks and bytes, deltas "
-             "cross-delivered: both end with the same type, value, field and stamp, and for two writes the survivor carries the greatest stamp; "
-             "observers applying the two deltas in both orders end alike. Not claimed: >= 3 concurrent updates, the executor glue "
-             "(what a node serves vs its replication state), gossip batching.",
-        note=TRUST + "Replication-state level only (ShardReplicaState / ReplicatedValue).",
+        text='Bounded, replication-state level: two replicas, one update each on one key, symbolic clocks and bytes, deltas cross-delivered: both end with the same type, value, field and stamp, and for two writes the survivor carries the greatest stamp. Quick: SET/DEL from an absent key. Thorough adds SET/SET (absent and common LWW pre-state), SET/HDEL, HSET/HSET and HSET/HDEL on a common hash {f}, HDEL/HDEL, and two observers applying the two deltas in both orders (SET/SET, SET then causal DEL). Not claimed: the other pairs and pre-states (no verdict under their caps), >= 3 concurrent updates, hash-field tombstones reaching a third replica, the executor glue (what a node serves vs its replication state - the S11 harnesses ran out their caps), gossip batching.',
+        note=TRUST + 'Replication-state level only (ShardReplicaState / ReplicatedValue).',
     ),
     "C07": dict(
-        text="Bounded: ReplicatedValue::merge is commutative, associative and idempotent in everything observable for LWW values (stamps < 2^62, "
-             "replicas 0..2, 0-2 byte payloads, tombstones, expiry, rf); thorough tier adds hash values over fields {f,g}, G/PN counters "
-             "(2 replicas, u32 counts), G-sets, OR-sets, vector clocks and the LWW/hash type-mismatch path, each of concrete kind per harness.",
-        note=TRUST + "Assumes the reachability invariant: inner stamp <= outer stamp; equal stamps carry identical registers (established by C08).",
+        text='Bounded: ReplicatedValue::merge is commutative, associative and idempotent in everything observable for LWW values (stamps < 2^62, replicas 0..2, 0-2 byte payloads, tombstones, expiry, rf); thorough adds commutativity of the LWW/hash type-mismatch path. Not claimed: hash values (field-wise merge), counters, sets, vector clocks and associativity across types - every such harness, also at the CrdtValue level and with the 1- and 2-slot container models, ran out of time or memory (DESIGN.md 9.6).',
+        note=TRUST + 'Assumes the reachability invariant: inner stamp <= outer stamp; equal stamps carry identical registers (established by C08).',
     ),
     "C08": dict(
-        text="Inductive step, not histories: from an arbitrary state in which every stored stamp is <= the clock, observing any stamp and then "
-             "writing/deleting yields a stamp strictly greater than everything seen, which wins on a peer holding the observed value "
-             "(register level and ShardReplicaState level, any source replica including the node itself). Not claimed: the checkpoint leg of "
-             "recovery (inside an async actor loop), clock wrap-around beyond 2^62.",
-        note=TRUST,
+        text="Inductive step, not histories: (1) register level: from any clock, observing any stamp and then writing/deleting yields a stamp strictly greater than everything seen, which wins on a peer holding the observed value; (2) apply_remote_delta of any LWW delta (any author incl. the node itself) leaves the clock above the delta's and its own previous time; (3) the checkpoint leg of recovery: an entry of any stamp entering through the ApplyRecoveredState arm of the shard actor (text-extracted, S10) is followed by a local write stamped above it that wins on a peer; (4) FLUSHALL (thorough: FLUSHDB, DEL, HDEL, GET, PING) through record_mutation_post_execute (S11) never moves the clock backwards. Not claimed: SET/HSET/INCR through that function (no verdict), clock wrap-around beyond 2^62.",
+        note=TRUST + "The executor's reaction to the command re-issued by the recovered-entry arm is stubbed to a no-op in (3); natively the real actor is driven through its mailbox.",
     ),
     "C09": dict(
         text="Bounded: WalRotator/WalWriter with a model store whose every append (incl. partial), fsync and create may fail: 2 (thorough 3) "
@@ -58,18 +50,16 @@ CLAIMED = {
         note=TRUST + "Crash model = keep the fsynced prefix of every file.",
     ),
     "C10": dict(
-        text="Bounded: WalEntry::decode is total on arbitrary bytes of declared payload length 0,1,3; encode/decode round-trips for payloads "
-             "0,2,4; every proper prefix is rejected; a single-bit flip in length, CRC or payload is rejected or harmless (stamp: known finding); "
-             "WalReader::entries keeps append order incl. header-only entries; truncate_before never deletes a file holding an entry newer than T; "
-             "a damaged file does not hide another file's entries. Not claimed: multi-byte corruptions colliding the CRC, payloads > 4 bytes.",
-        note=TRUST + "Real crc32fast (portable path).",
+        text='Bounded: WalEntry::decode is total on arbitrary bytes of declared payload length 0,2,4; encode/decode round-trips for payloads 0-4; proper prefixes of an encoded entry are rejected; a single-bit flip in length, CRC or payload of a 1-byte-payload entry is rejected or harmless (stamp: known finding F6); WalReader::entries / entries_after keep both entries of an image of two header-only entries, in order. Not claimed: truncate_before and isolation of damaged files (harnesses ran out of time or memory), multi-byte corruptions colliding the CRC, payloads > 4 bytes.',
+        note=TRUST + 'Real crc32fast (portable path).',
     ),
     "C11": dict(
-        text="Bounded, WAL leg only: an update that exists only in the WAL is replayed whatever the maximum stamps of the listed segments are "
-             "(threshold statements text-extracted from recover_with_wal), and WalReader::entries_after keeps exactly the entries at or above "
-             "the threshold. Not claimed: RecoveryManager::recover itself (segment selection/ordering, checkpoint handling - async over an "
-             "object store with JSON/bincode), idempotence of repeated recovery.",
-        note=TRUST + "Natively the same question is put to the real recover_with_wal over in-memory stores.",
+        text='Bounded: (1) WAL leg: an update that exists only in the WAL is replayed whatever the maximum stamps of the listed segments are (threshold statements text-extracted from recover_with_wal, S5); (2) segment selection of RecoveryManager::recover without a checkpoint (statements text-extracted, S9): each of 2 (thorough: 3) listed segments, in either list order and with minimum stamps that may be equal, is loaded exactly once and nothing unlisted is. Not claimed: selection with a checkpoint (no verdict), how recovered entries are applied to the shards, decoding of segments/checkpoints, idempotence of repeated recovery.',
+        note=TRUST + 'Natively the same questions are put to the real recover()/recover_with_wal over in-memory stores.',
+    ),
+    "C13": dict(
+        text="Bounded, per-key rules of one compaction only: the statements of Compactor::compact() that choose the surviving update of a key and that drop expired tombstones (text-extracted, S8) are run on 2 LWW updates of one key with symbolic stamps (equal times from two replicas included), bytes, tombstone flags and any tombstone cutoff: when no tombstone is dropped, recovery after the compaction returns the same value, liveness and stamp as before; when one is dropped, no older value of the compacted segments becomes visible. Not claimed: an older value OUTSIDE the compaction (unselected segment, checkpoint) resurfacing after a tombstone is dropped (harnesses ran out of memory; by reading this is a defect, DESIGN.md 9.2 F11b), hash values, segment selection, manifest updates, interleaving with flushes, the object-store steps.",
+        note=TRUST + "2-slot container model (harness names *_c2). Natively the real compact() runs between two real recover() runs on an in-memory object store.",
     ),
     "C15": dict(
         text="Bounded: both RESP decoders on templates whose size-determining fields are concrete (type byte, length text from a boundary menu "
@@ -86,21 +76,15 @@ CLAIMED = {
         note=TRUST,
     ),
     "C17": dict(
-        text="Bounded, per operation: on a 4-key world of every type (one key with a TTL), wrong-typed operands and failing arguments "
-             "(overflow, out-of-range index, invalid expiry) reply with an error and leave every key, type, content summary and deadline "
-             "unchanged; read-only operations change nothing. Not claimed: the dispatch match, multi-element partial failure, EVAL.",
-        note=TRUST + "Keyspace is built by direct insertion; operations are called through forwarding hooks.",
+        text='Bounded, per operation: on worlds of two keys of different types (the list key carries a TTL), wrong-typed operands (SETRANGE/STRLEN on a set, LPUSH/LSET/HINCRBY on a string) and failing arguments (SET with an invalid PX, SET EX overflowing i64 on a list key with a TTL) reply with an error and leave every key, type, content summary and deadline unchanged; TTL/PTTL/EXISTS change nothing. Not claimed: the other operations listed in the registry as experimental (no verdict, among them RPOPLPUSH/LMOVE), the dispatch match, multi-element partial failure, EVAL.',
+        note=TRUST + 'Keyspace is built by direct insertion; operations are called through forwarding hooks.',
     ),
     "C18": dict(
-        text="Bounded: bucket hash independent of fold order (2-3 digests) and sound (different pair sets => different hash), key digest sound "
-             "and complete for LWW values, expiry and hash {f} (decided on hasher input streams), state digest independent of map insertion "
-             "order. Not claimed: sync rounds under max_keys_per_sync, CRDT kinds other than LWW/hash.",
-        note=TRUST + "Transparent hasher with stream log; natively real SipHash.",
+        text='Bounded: bucket hash independent of fold order (2 digests) and sound (different pair sets => different hash), key digest sound and complete for LWW values, expiry and hash {f} (decided on hasher input streams), state digest of two keys independent of map insertion order, and get_keys_in_buckets offers a key of a requested bucket even when a key of another bucket precedes it and the per-round limit is 1. Not claimed: completion of a sync within a number of rounds when a bucket holds more keys than the limit (harness ran out of time; by reading the same prefix is re-sent each round), CRDT kinds other than LWW/hash.',
+        note=TRUST + 'Transparent hasher with stream log; natively real SipHash.',
     ),
     "C19": dict(
-        text="Bounded: hash ring over three concrete virtual-node layouts (incl. adjacent vnodes and positions 0 / u64::MAX), 2-4 members x 2 "
-             "vnodes, key position = any u64, rf 1..4: replica list independent of join order, min(rf,n) distinct members, removal changes "
-             "only keys that held the node, gossip targets = replicas minus sender; from_config ids = the other members. Not all layouts.",
+        text='Bounded: hash ring over three concrete virtual-node layouts (3 members x 2 virtual nodes, incl. adjacent vnodes and positions 0 / u64::MAX), key position = any u64, replication factor 1: the primary is the member clockwise from the key, independent of join order, and gossip targets = replicas minus sender; GossipRouter::from_config ids = the other members of a 3-node cluster. Not claimed: replication factor >= 2 (every such harness ran out of memory in CBMC, DESIGN.md 9.6), removal/addition of members, other layouts.',
         note=TRUST + "HashRing's two private hash functions are stubbed by position tables under Kani; natively the oracle is swept over 4000 real keys.",
     ),
 }
@@ -109,7 +93,6 @@ NA = {
     "C02": "quantifies over interleavings of tokio tasks/mailboxes; Kani has no scheduler or concurrency semantics and no bounded encoding of the schedule space is within reach of solver-based checking here (DESIGN.md C02)",
     "C05": "production MULTI/EXEC lives inside an async connection handler; the simulation twin replays through CommandExecutor::execute on heap-stored Commands, which gave no verdict in 4 x 20-25 min (DESIGN.md C05)",
     "C12": "flush/compact/recover are async fns over an object store with bincode/serde_json between store calls; the cheapest instance gave no verdict in 25/20/15 min in three configurations (DESIGN.md C12)",
-    "C13": "same code path and obstacle as C12; the survivor and tombstone rules are inline in the async compact() (DESIGN.md C13)",
     "C14": "the part of C14 this technique reaches (WAL entry codec: round trip, truncation, single-bit damage) is decided under C10; segment/checkpoint framing with real images and value round trips through bincode/serde_json were not brought to a verdict (DESIGN.md C14, 9.3), so C14 itself is not claimed",
     "C20": "a relation between two whole simulator runs (ChaCha RNG, hash-seeded containers, wall clock); no bounded symbolic encoding within reach (DESIGN.md C20)",
 }
